@@ -170,7 +170,9 @@ Definition chk_history (h : hcase) : Z :=
 Inductive gout := GOk (name : Z) | GErr (e : gerr) | GOther.
 Record gstepc := {
   g_key : nat;
-  g_modes : list (nat * option nat);     (* how the body of each key behaves NOW: None returns, Some i raises after i nested calls *)
+  g_modes : list (nat * option (nat * nat));
+    (* how the body of each key behaves NOW: None returns; Some (i, kind) ends after i nested calls with a failure of that
+       kind (0 Exception, 1 returns no Module, >= 2 a BaseException outside Exception) *)
   g_out : gout;
   g_fresh : gout;                        (* the same call, same body behaviour, in a fresh process *)
   g_pend_empty : bool;
@@ -178,28 +180,35 @@ Record gstepc := {
   g_done : list nat;                     (* keys in Cache.done *)
   g_runs : list (nat * nat)              (* body executions so far, per key *)
 }.
-Definition gcase := (list (nat * list nat) * list gstepc)%type.
+(* nested calls per key, the keys whose generator has enable_cache=False, the calls *)
+Definition gcase := (list (nat * list nat) * list nat * list gstepc)%type.
 
 Definition gerr_eqb (a b : gerr) : bool :=
-  match a, b with GE x, GE y => Nat.eqb x y | GCycle x, GCycle y => Nat.eqb x y | GFuel, GFuel => true | _, _ => false end.
+  match a, b with
+  | GE x i, GE y j => Nat.eqb x y && Nat.eqb i j
+  | GCycle x, GCycle y => Nat.eqb x y
+  | GFuel, GFuel => true
+  | _, _ => false
+  end.
 Definition gout_eqb (a b : gout) : bool :=
   match a, b with GOk x, GOk y => x =? y | GErr x, GErr y => gerr_eqb x y | GOther, GOther => true | _, _ => false end.
 
 Fixpoint assoc_calls (l : list (nat * list nat)) (k : nat) : list nat :=
   match l with [] => [] | (k', cs) :: l' => if Nat.eqb k k' then cs else assoc_calls l' k end.
-Fixpoint assoc_mode (l : list (nat * option nat)) (k : nat) : option nat :=
+Fixpoint assoc_mode (l : list (nat * option (nat * nat))) (k : nat) : option (nat * nat) :=
   match l with [] => None | (k', o) :: l' => if Nat.eqb k k' then o else assoc_mode l' k end.
 
 (* specification: nothing stays pending or on the stack, and the call does what it does in a fresh process
    (a body that raised is simply run again) *)
 Definition gspec (s : gstepc) : bool := g_pend_empty s && g_stack_empty s && gout_eqb (g_out s) (g_fresh s).
 
-Fixpoint chk_gsteps (calls : list (nat * list nat)) (k : Z) (ms : gst) (ss : list gstepc) : Z :=
+Fixpoint chk_gsteps (calls : list (nat * list nat)) (unc : list nat) (k : Z) (ms : gst) (ss : list gstepc) : Z :=
   match ss with
   | [] => 0
   | s :: ss' =>
       if negb (gspec s) then 1 + 10 * (k + 1) else
-      let r := grun true (assoc_calls calls) (fun key _ => assoc_mode (g_modes s) key) (S (length calls)) ms (g_key s) in
+      let r := grun GFinally (fun key => negb (gmem key unc)) (assoc_calls calls) (fun key _ => assoc_mode (g_modes s) key)
+                    (S (length calls)) ms (g_key s) in
       let ms' := fst r in
       let okout := match snd r, g_out s with
                    | None, GOk _ => true
@@ -208,6 +217,15 @@ Fixpoint chk_gsteps (calls : list (nat * list nat)) (k : Z) (ms : gst) (ss : lis
                    end in
       let okdone := forallb (fun x => gmem x (g_done s)) (gdone ms') && forallb (fun x => gmem x (gdone ms')) (g_done s) in
       let okruns := forallb (fun kr : nat * nat => Nat.eqb (gcount (fst kr) (gruns ms')) (snd kr)) (g_runs s) in
-      if negb (okout && okdone && okruns) then 2 + 10 * (k + 1) else chk_gsteps calls (k + 1) ms' ss'
+      if negb (okout && okdone && okruns) then 2 + 10 * (k + 1) else chk_gsteps calls unc (k + 1) ms' ss'
   end.
-Definition chk_gen (c : gcase) : Z := chk_gsteps (fst c) 0 ginit (snd c).
+(* the whole history through the specification first (as for module histories): a cache that differs from the model's at
+   an early call must not hide what a later call returns *)
+Fixpoint gspec_only (k : Z) (ss : list gstepc) : Z :=
+  match ss with
+  | [] => 0
+  | s :: ss' => if negb (gspec s) then 1 + 10 * (k + 1) else gspec_only (k + 1) ss'
+  end.
+Definition chk_gen (c : gcase) : Z :=
+  let c1 := gspec_only 0 (snd c) in
+  if c1 =? 0 then chk_gsteps (fst (fst c)) (snd (fst c)) 0 ginit (snd c) else c1.
